@@ -3,7 +3,7 @@
 set -u
 [ $# -eq 0 ] && set -- /verif/negative/*/*.diff
 export GOFLAGS=-mod=mod GOPROXY=off GOSUMDB=off GOTOOLCHAIN=local
-bin=$(mktemp /tmp/kbcheck.XXXXXX); cp /verif/bin/kbcheck $bin; chmod +x $bin
+bin=$(mktemp /tmp/kbcheck.XXXXXX); cp ${KBCHECK:-/verif/bin/kbcheck} $bin; chmod +x $bin
 for df in "$@"; do
   df=$(readlink -f "$df")
   d=$(mktemp -d /tmp/kbneg.XXXXXX)
